@@ -1,5 +1,6 @@
 import ZapVerif.Model.Deliver
 import ZapVerif.Proofs.EntryWF
+import ZapVerif.Proofs.TransCE
 /-! # C10 — field and sink failures are contained and reported; the entry is never lost -/
 namespace ZapVerif.C10
 open ZapVerif ZapVerif.Esc ZapVerif.Json ZapVerif.Enc ZapVerif.Entry ZapVerif.Deliver
@@ -90,5 +91,175 @@ theorem errors_all_reported (c : Core) :
 /-- non-vacuity: a tee whose first branch fails still delivers to the second and reports the failure -/
 example : logOnce (.tee [.io true [⟨0, true, false⟩], .io false [⟨1, false, false⟩], .wrap (.tee [.io true [⟨2, false, false⟩, ⟨3, true, false⟩]])]) =
     ⟨[0, 2, 3], [0, 3], 1⟩ := by decide
+
+end ZapVerif.C10
+
+/-! ## `CheckedEntry.Write` IS the source (Go→GoMini translation, docs/TRANSLATOR.md)
+
+`Gen/TransCE.lean` holds the body of `(*CheckedEntry).Write` as read from zapcore/entry.go on this run.  Every call it
+makes to the outside is a recorded intrinsic; the theorem gives the exact trace for EVERY list of cores and every
+combination of write outcomes: each core written once, in order, whatever the earlier ones returned; one
+`Fprintf` + `Sync` on the ErrorOutput iff some write failed (and an ErrorOutput is set), carrying ALL errors in order;
+then the hook, unconditionally, if one is set; then the pool put — in this order. -/
+namespace ZapVerif.C10
+set_option linter.unusedSimpArgs false
+open ZapVerif ZapVerif.Deliver ZapVerif.GoMini ZapVerif.TransCE ZapVerif.Gen.TransCE
+
+/-- loop variables of the core loop after an iteration (absent before the first) -/
+def ceTail : Option (Int × List Val) → Env
+  | none => []
+  | some (i, e) => [("l1", .int i), ("l2", .list e)]
+
+/-- state at the head of the core loop: errors so far, trace so far -/
+def ceAbs (eo after : List Val) (cores : List Val) (time entry self fs : Val)
+    (a : (List Val × List Val) × Option (Int × List Val)) : State :=
+  ⟨[("p0", fs), ("l0", .list a.1.1)] ++ ceTail a.2, ceFld false true eo after cores time entry self a.1.2⟩
+
+def ceStep (entry fs : Val) (a : (List Val × List Val) × Option (Int × List Val)) (i : Nat) (c : Nat × List Val) :
+    (List Val × List Val) × Option (Int × List Val) :=
+  ((a.1.1 ++ c.2, a.1.2 ++ [evCore (coreOf c) entry fs]), some ((i : Int), c.2))
+
+theorem ceStep_fold (entry fs : Val) : ∀ (l : List ((Nat × List Val) × Nat)) (a : (List Val × List Val) × Option (Int × List Val)),
+    (l.foldl (fun a q => ceStep entry fs a q.2 q.1) a).1 =
+      (a.1.1 ++ l.flatMap (·.1.2), a.1.2 ++ l.map (fun q => evCore (coreOf q.1) entry fs))
+  | [], a => by simp
+  | q :: l, a => by
+    simp only [List.foldl_cons]
+    rw [ceStep_fold entry fs l]
+    simp [ceStep, List.append_assoc]
+
+/-- the core loop of `CheckedEntry.Write`: every core is written, in order, with the entry and the fields; the
+    errors are only collected -/
+theorem CheckedEntry_Write_loop_matches_source (cs : List (Nat × List Val)) (eo after : List Val)
+    (time entry self fs : Val) (ev : List Val) (rec : Stmt → State → GoMini.Out) :
+    ∃ t, execS X rec Write_loop0
+        (ceAbs eo after (cs.map coreOf) time entry self fs (([], ev), none)) =
+      .normal (ceAbs eo after (cs.map coreOf) time entry self fs
+        ((cs.flatMap (·.2), ev ++ cs.map fun c => evCore (coreOf c) entry fs), t)) := by
+  have hiter : ∀ (a : (List Val × List Val) × Option (Int × List Val)) (i : Nat) (c : Nat × List Val),
+      cs[i]? = some c →
+      (match Write_loop0 with
+        | .range k v _ body => execS X rec body
+            (((ceAbs eo after (cs.map coreOf) time entry self fs a).assign1 k (.int i)).assign1 v (coreOf c))
+        | _ => .oof) = .normal (ceAbs eo after (cs.map coreOf) time entry self fs (ceStep entry fs a i c)) := by
+    intro ⟨⟨acc, tr⟩, t⟩ i c hc
+    have hidx := indexVal_list_map coreOf cs i c hc
+    cases t <;> simp [Write_loop0, ceAbs, ceTail, ceStep, hidx, evCore, nm_coreWrite]
+  unfold Write_loop0 at hiter ⊢
+  rw [execS_range]
+  have hfold := rangeRun_fold_at (execS X rec _) _ _
+    (ceAbs eo after (cs.map coreOf) time entry self fs) coreOf
+    (ceStep entry fs) cs hiter cs 0 (([], ev), none) (by simp)
+  refine ⟨((cs.zipIdx).foldl (fun a q => ceStep entry fs a q.2 q.1) (([], ev), none)).2, ?_⟩
+  have hcs : evalE X (ceAbs eo after (cs.map coreOf) time entry self fs (([], ev), none)) (.fld "cores") =
+      .ok (.list (cs.map coreOf)) := by simp [ceAbs]
+  rw [hcs]
+  simp only [Res.out_ok]
+  refine Eq.trans hfold ?_
+  congr 2
+  refine Prod.ext ?_ rfl
+  rw [ceStep_fold, zipIdx_flatMap_fst (fun c : Nat × List Val => c.2), zipIdx_map_fst (fun c => evCore (coreOf c) entry fs)]
+  simp
+
+/-- `(*CheckedEntry).Write(fields…)` on a fresh (non-nil, not dirty) entry, for EVERY list of cores and write outcomes:
+    the entry is marked dirty and the calls made are exactly `TransCE.expected` — all cores in order, the error line
+    (+ Sync) iff some write failed and an ErrorOutput is set, with every error in order, then the hook if set
+    (whatever the writes returned), then the pool put last -/
+theorem CheckedEntry_Write_matches_source (cs : List (Nat × List Val)) (eo after : List Val)
+    (time entry self fs : Val) (ev : List Val) (fuel : Nat) :
+    run X (fuel + 1) "Write" [fs] (ceFld false false eo after (cs.map coreOf) time entry self ev) =
+      .done [] (ceFld false true eo after (cs.map coreOf) time entry self
+        (ev ++ expected cs eo after time entry self fs)) := by
+  refine run_of_fin X _ _ Gen.TransCE.Write [fs] _ _ _ rfl rfl ?_
+  show (exec X (fuel + 1) Write_body ⟨[("p0", fs)], _⟩).fin = _
+  rw [exec_succ]
+  obtain ⟨t, hl⟩ := CheckedEntry_Write_loop_matches_source cs eo after time entry self fs ev (exec X fuel)
+  simp only [ceAbs, ceTail, List.append_nil] at hl
+  have hpos : ∀ n : Nat, ¬ ((n : Int) + 1 = 0) := by intro n; omega
+  simp only [expected]
+  generalize cs.flatMap (fun x => x.2) = E at hl ⊢
+  cases E <;> cases eo <;> cases after <;> cases t <;>
+    simp [Write_body, hl, ceTail, evErrLine, evErrSync, evHook, evPut, nm_fprintf, nm_sync, nm_hook, nm_put,
+      nm_errfmt, List.append_assoc, hpos]
+
+/-- a nil `*CheckedEntry`: `Write` does nothing at all -/
+theorem CheckedEntry_Write_nil_matches_source (dirty : Bool) (eo after cores : List Val) (time entry self fs : Val)
+    (ev : List Val) (fuel : Nat) :
+    run X (fuel + 1) "Write" [fs] (ceFld true dirty eo after cores time entry self ev) =
+      .done [] (ceFld true dirty eo after cores time entry self ev) := by
+  refine run_of_fin X _ _ Gen.TransCE.Write [fs] _ _ _ rfl rfl ?_
+  show (exec X (fuel + 1) Write_body ⟨[("p0", fs)], _⟩).fin = _
+  rw [exec_succ]
+  simp [Write_body]
+
+/-- a dirty entry (re-used after it went back to the pool): no core is written, no hook runs, nothing is put back;
+    only the re-use report goes to the ErrorOutput, if there is one -/
+theorem CheckedEntry_Write_dirty_matches_source (eo after cores : List Val) (time entry self fs : Val)
+    (ev : List Val) (fuel : Nat) :
+    run X (fuel + 1) "Write" [fs] (ceFld false true eo after cores time entry self ev) =
+      .done [] (ceFld false true eo after cores time entry self
+        (ev ++ if eo = [] then [] else [evReuse eo time entry, evErrSync eo])) := by
+  refine run_of_fin X _ _ Gen.TransCE.Write [fs] _ _ _ rfl rfl ?_
+  show (exec X (fuel + 1) Write_body ⟨[("p0", fs)], _⟩).fin = _
+  rw [exec_succ]
+  have hpos : ∀ n : Nat, ¬ ((n : Int) + 1 = 0) := by intro n; omega
+  cases eo <;> simp [Write_body, evReuse, evErrSync, nm_fprintf, nm_sync, nm_reusefmt, hpos]
+
+/-! ### reading the trace as `Deliver.ceWrite`
+
+`Deliver.ceWrite c after` describes a log call at the level of SINKS: the cores of the checked entry are `accepted c`,
+and a core's `Write` reaches `sinksOf core` and fails iff one of them fails (what `ioCore.Write`, `multiCore.Write` and
+`multiWriteSyncer.Write` do — their own `…_matches_source` theorems).  Under that reading the recorded trace of
+`CheckedEntry.Write` is `Deliver.ceWrite`. -/
+
+/-- the core value for a `Deliver.Core`: position and the ids of its failing sinks -/
+def dcore (p : Deliver.Core × Nat) : Nat × List Val :=
+  (p.2, ((sinksOf p.1).filter (·.writeErr)).map fun s => Val.int s.id)
+
+/-- a recorded call as sink-level events: a `Core.Write` of the core at position `i` reaches that core's sinks, the
+    `Fprintf` on the ErrorOutput is the failure line, `hook.OnWrite` is the loss of control; `Sync` and the pool put
+    are not events of `Deliver` -/
+def readEv (cores : List Deliver.Core) : Val → List Deliver.DEv
+  | .list (.bytes n :: rest) =>
+    if n = [67, 111, 114, 101, 46, 87, 114, 105, 116, 101] then
+      (match rest with
+       | .list (.int i :: _) :: _ =>
+         (match cores[i.toNat]? with | some c => (sinksOf c).map fun s => Deliver.DEv.wrote s.id | none => [])
+       | _ => [])
+    else if n = [104, 111, 111, 107, 46, 79, 110, 87, 114, 105, 116, 101] then [Deliver.DEv.term]
+    else if n = [102, 109, 116, 46, 70, 112, 114, 105, 110, 116, 102] then [Deliver.DEv.errLine]
+    else []
+  | _ => []
+
+theorem readEv_cores (entry fs : Val) (pre : List Deliver.Core) :
+    ∀ (l : List Deliver.Core),
+      ((l.zipIdx pre.length).map fun p => evCore (coreOf (dcore p)) entry fs).flatMap (readEv (pre ++ l)) =
+        (l.flatMap sinksOf).map fun s => Deliver.DEv.wrote s.id
+  | [] => by simp
+  | c :: l => by
+    have ih := readEv_cores entry fs (pre ++ [c]) l
+    simp only [List.length_append, List.length_singleton, List.append_assoc, List.singleton_append] at ih
+    simp only [List.zipIdx_cons, List.map_cons, List.flatMap_cons, ih, List.map_append]
+    congr 1
+    simp [readEv, evCore, coreOf, coreV, dcore, nm_coreWrite]
+
+theorem dcore_errs (l : List Deliver.Core) (k : Nat) :
+    ((l.zipIdx k).map dcore).flatMap (·.2) = ((l.flatMap sinksOf).filter (·.writeErr)).map fun s => Val.int s.id := by
+  induction l generalizing k with
+  | nil => simp
+  | cons c l ih => simp [List.zipIdx_cons, dcore, ih]
+
+/-- the recorded trace of `CheckedEntry.Write`, read at sink level, is `Deliver.ceWrite` — the function
+    `ce_write_all_cores`, `errors_all_reported` and C06's `terminal_despite_sink_failures` are stated over -/
+theorem CheckedEntry_Write_is_ceWrite (c : Deliver.Core) (eo : Val) (after : List Val) (time entry self fs : Val) :
+    (expected ((accepted c).zipIdx.map dcore) [eo] after time entry self fs).flatMap (readEv (accepted c)) =
+      Deliver.ceWrite c (decide (after ≠ [])) := by
+  have h1 := readEv_cores entry fs [] (accepted c)
+  simp only [List.length_nil, List.nil_append] at h1
+  have h2 := dcore_errs (accepted c) 0
+  simp only [expected, Deliver.ceWrite, List.flatMap_append, List.map_map, Function.comp_def] at h1 ⊢
+  rw [h1, h2]
+  by_cases he : ((accepted c).flatMap sinksOf).filter (·.writeErr) = [] <;> cases after <;>
+    simp [he, readEv, evErrLine, evErrSync, evHook, evPut, nm_fprintf, nm_sync, nm_hook, nm_put]
 
 end ZapVerif.C10
